@@ -116,59 +116,38 @@ impl Router {
         if let Some(((_, path_rules), trie_matches)) =
             self.tree.lookup_with_path(hostname_b, true, trie_path)
         {
-            let mut prefix_length = 0;
-            let mut matched: Option<(&PathRule, &Route)> = None;
+            // Documented precedence (doc/configure.md, "Path matching precedence
+            // within a frontend"): EQUALS over REGEX over the longest PREFIX;
+            // among rules of equal path rank a method-specific rule wins over
+            // a method-agnostic one. The winner is the rule of highest rank,
+            // so it does not depend on the order in which rules were added.
+            // rank = (path kind, prefix length, method specificity)
+            let mut best: Option<((u8, usize, u8), &PathRule, &Route)> = None;
 
             for (rule, method_rule, route) in path_rules {
-                match rule.matches(path_b) {
-                    PathRuleResult::Regex | PathRuleResult::Equals => {
-                        match method_rule.matches(method) {
-                            MethodRuleResult::Equals => {
-                                return Ok(RouteResult::new_with_trie(
-                                    hostname_b,
-                                    trie_matches,
-                                    path_b,
-                                    rule,
-                                    route,
-                                ));
-                            }
-                            MethodRuleResult::All => {
-                                prefix_length = path_b.len();
-                                matched = Some((rule, route));
-                            }
-                            MethodRuleResult::None => {}
-                        }
+                let path_rank = match rule.matches(path_b) {
+                    PathRuleResult::Equals => Some((2u8, 0usize)),
+                    PathRuleResult::Regex => Some((1u8, 0usize)),
+                    PathRuleResult::Prefix(size) => Some((0u8, size)),
+                    PathRuleResult::None => None,
+                };
+                let method_rank = match method_rule.matches(method) {
+                    MethodRuleResult::Equals => Some(1u8),
+                    MethodRuleResult::All => Some(0u8),
+                    MethodRuleResult::None => None,
+                };
+                if let (Some((kind, size)), Some(specificity)) = (path_rank, method_rank) {
+                    let rank = (kind, size, specificity);
+                    let better = match best {
+                        None => true,
+                        Some((best_rank, _, _)) => rank > best_rank,
+                    };
+                    if better {
+                        best = Some((rank, rule, route));
                     }
-                    PathRuleResult::Prefix(size) => {
-                        if size >= prefix_length {
-                            match method_rule.matches(method) {
-                                // FIXME: the rule order will be important here
-                                MethodRuleResult::Equals => {
-                                    // Longest-prefix wins: the selected
-                                    // length is monotonically non-decreasing
-                                    // across the candidate scan.
-                                    debug_assert!(
-                                        size >= prefix_length,
-                                        "longest-prefix selection must never shrink the match length",
-                                    );
-                                    prefix_length = size;
-                                    matched = Some((rule, route));
-                                }
-                                MethodRuleResult::All => {
-                                    debug_assert!(
-                                        size >= prefix_length,
-                                        "longest-prefix selection must never shrink the match length",
-                                    );
-                                    prefix_length = size;
-                                    matched = Some((rule, route));
-                                }
-                                MethodRuleResult::None => {}
-                            }
-                        }
-                    }
-                    PathRuleResult::None => {}
                 }
             }
+            let matched: Option<(&PathRule, &Route)> = best.map(|(_, rule, route)| (rule, route));
 
             if let Some((path_rule, route)) = matched {
                 return Ok(RouteResult::new_with_trie(
